@@ -200,6 +200,40 @@ def _ops():
     op("p_eq", "P", "P")(lambda L, a, k, e: a[0] == a[1])
     op("p_hash", "P")(lambda L, a, k, e: hash(a[0]) == hash(a[0]))
     op("p_props", "P")(lambda L, a, k, e: (a[0].is_ising, a[0].is_constant, a[0].n_qubits, sorted(a[0].qubits), len(a[0])))
+    # augmented assignment through a second name: `x = a; x += b` must leave `a` as it was
+    def _aug(kind):
+        def f(L, a, k, e):
+            x = a[0]
+            num = NUMS[k[0] % len(NUMS)]
+            if kind == "iadd":
+                x += a[1]
+            elif kind == "isub":
+                x -= a[1]
+            elif kind == "imul":
+                x *= a[1]
+            elif kind == "iadd_num":
+                x += num
+            elif kind == "imul_num":
+                x *= num
+            elif kind == "idiv_num":
+                x /= [2, 0.5, -4, 2j][k[0] % 4]
+            elif kind == "ipow":
+                x **= k[0] % 3
+            return x
+        return f
+    op("p_iadd", "P", "P")(_aug("iadd"))
+    op("p_isub", "P", "P")(_aug("isub"))
+    op("p_imul", "P", "P")(_aug("imul"))
+    op("p_iadd_num", "P")(_aug("iadd_num"))
+    op("p_imul_num", "P")(_aug("imul_num"))
+    op("p_idiv_num", "P")(_aug("idiv_num"))
+    op("p_ipow", "P")(_aug("ipow"))
+
+    def _c_iadd(L, a, k, e):
+        x = a[0]
+        x += a[1]
+        return x
+    op("c_iadd", "C", "C")(_c_iadd)
     op("p_qubits", "P")(lambda L, a, k, e: a[0].qubits)
     op("p_operations", "P")(lambda L, a, k, e: a[0].operations if hasattr(a[0], "operations") else [t.operations for t in a[0].terms])
     op("p_circuits", "P")(lambda L, a, k, e: a[0].circuits if hasattr(a[0], "circuits") else a[0].circuit)
@@ -700,7 +734,7 @@ class World:
     # receiver, cached lists, simplify keeping lone terms, `term + number` wrapping the very term object
     ALIAS_BY_DESIGN = {"m_new", "w_new", "p_sum_from_terms", "w_bind", "p_circuits", "p_terms", "c_ops_nq", "c_split",
                        "cl_sum", "p_copy", "g_dagger", "g_bind", "c_bind", "p_simplify", "p_num_r", "p_num_l",
-                       "p_add", "p_sub", "p_add_self"}  # term + term builds PauliSum([self, other]) around the very objects
+                       "p_add", "p_sub", "p_add_self", "p_iadd", "p_isub", "p_iadd_num"}  # term + term builds PauliSum([self, other]) around the very objects
 
     def _probe_result_alias(self, ctx, st, name, results, before):
         """The client edits the (second, otherwise discarded) result through its public interface; no object that
